@@ -119,6 +119,21 @@ def hashRec {P : Type} (H : P → Option Nat) (C : Combine) (h : Str → Nat) (i
 
 /-! ### the ignored-fields global and its context manager -/
 
+/-- `set_ignored_fields_for_comparison` and `ignore_fields_for_comparison`, statement by statement, as `exec1` below
+    reads them (compared with the regenerated `Gen.ignoreSetterBody` / `Gen.ignoreScopeBody` in `Props/C12.lean`): the
+    setter REBINDS the global to a fresh set - it never edits the set in place, so a saved binding keeps its contents -
+    and the context manager saves the binding, installs the override inside its `try`, restores in the `finally`. -/
+def ignoreSetterFrozen : List String :=
+  ["global IGNORE_FIELDS_FOR_COMPARISON", "IGNORE_FIELDS_FOR_COMPARISON = set(ignored_fields)"]
+
+def ignoreScopeFrozen : List String :=
+  ["original_ignored_fields = IGNORE_FIELDS_FOR_COMPARISON",
+   "try:",
+   "  set_ignored_fields_for_comparison(ignored_fields)",
+   "  yield",
+   "finally:",
+   "  set_ignored_fields_for_comparison(original_ignored_fields)"]
+
 inductive Cmd where
   | set (s : List Str)                       -- set_ignored_fields_for_comparison(s)
   | scope (s : List Str) (body : List Cmd)   -- with ignore_fields_for_comparison(s): body
